@@ -539,3 +539,76 @@ func isQuery(fn *ssa.Function) bool {
 	return sig.Recv() != nil && sig.Params().Len() == 2 && strings.HasSuffix(typeString(sig.Params().At(0).Type()), "context.Context") &&
 		strings.Contains(typeString(sig.Params().At(1).Type()), "Query")
 }
+
+// runParamsWriterCheck (C13): every instruction that writes the module's ParamsKey directly
+// (store.Set(types.ParamsKey, ...)) must sit in Keeper.SetParams — the function proved to validate
+// before writing — or in a store migration. One obligation per such instruction.
+func runParamsWriterCheck(p *Program) *FuncReport {
+	rep := &FuncReport{Key: "params-writers"}
+	var keys []string
+	for k := range p.Funcs {
+		keys = append(keys, k)
+	}
+	sort.Strings(keys)
+	seen := map[*ssa.Function]bool{}
+	n := 0
+	var visit func(fn, top *ssa.Function)
+	visit = func(fn, top *ssa.Function) {
+		for _, b := range fn.Blocks {
+			for _, in := range b.Instrs {
+				if mc, ok := in.(*ssa.MakeClosure); ok {
+					visit(mc.Fn.(*ssa.Function), top)
+				}
+				ci, ok := in.(ssa.CallInstruction)
+				if !ok {
+					continue
+				}
+				c := ci.Common()
+				name := ""
+				var keyArg ssa.Value
+				if c.IsInvoke() && (c.Method.Name() == "Set" || c.Method.Name() == "Delete") && len(c.Args) >= 1 {
+					name = c.Method.FullName()
+					keyArg = c.Args[0]
+				} else if f := c.StaticCallee(); f != nil && (f.Name() == "Set" || f.Name() == "Delete") && strings.Contains(f.String(), "store/prefix.Store") && len(c.Args) >= 2 {
+					name = f.String()
+					keyArg = c.Args[1]
+				}
+				if keyArg == nil || !strings.Contains(name, "store") {
+					continue
+				}
+				u, ok := keyArg.(*ssa.UnOp)
+				if !ok {
+					continue
+				}
+				g, ok := u.X.(*ssa.Global)
+				if !ok || g.Name() != "ParamsKey" {
+					continue
+				}
+				n++
+				key := contractKeyOf(top)
+				o := &Obligation{Name: fmt.Sprintf("%s/params-writer#%d", key, n), Kind: "effect", Func: key, Goal: TrueT, Solver: "effect-checker", Status: "discharged",
+					Note: "direct write of " + g.String() + " in " + key}
+				okWriter := strings.HasSuffix(key, ".Keeper.SetParams") || strings.Contains(key, "/migrations/")
+				if !okWriter {
+					o.Status, o.Goal = "failed", FalseT
+					o.Output = "the parameters key is written outside Keeper.SetParams / a store migration: " + key + " at " + fn.Prog.Fset.Position(in.Pos()).String()
+				}
+				rep.Obligations = append(rep.Obligations, o)
+			}
+		}
+	}
+	for _, k := range keys {
+		fn := p.Funcs[k]
+		if seen[fn] || fn.Pkg == nil || !inEffectScope(fn.Pkg.Pkg.Path()) {
+			continue
+		}
+		seen[fn] = true
+		visit(fn, fn)
+	}
+	// vacuity: the three SetParams functions must have been seen writing the key
+	if n < 3 {
+		rep.Obligations = append(rep.Obligations, &Obligation{Name: "params-writers/found", Kind: "effect", Goal: FalseT, Status: "failed", Solver: "effect-checker",
+			Output: fmt.Sprintf("expected at least 3 direct writers of ParamsKey (the SetParams functions), found %d", n)})
+	}
+	return rep
+}
